@@ -135,6 +135,8 @@ def find_read_pos(ck):
     for node in fi.cfg.stmt_nodes(lambda n: n.kind == "stmt" and isinstance(n.ast, ast.Return) and n.ast.value is not None and not (isinstance(n.ast.value, ast.Constant) and n.ast.value.value is None)):
         if has(gf[node.id], "self._read_bytes is None", False):
             continue  # fixed-size branch: folded exhaustively below
+        if not (has(gf[node.id], "self._read_delimiter is None", False) or has(gf[node.id], "self._read_regex is None", False)):
+            continue  # not in a delimiter / regex arm: covered by the exhaustive fold of the fixed-size decision (floor below keeps the two arms)
         n_ret += 1
         want = q.unparse(node.ast.value)
         names = _names(node.ast.value)
